@@ -38,6 +38,16 @@ class DeviceFault(RuntimeError):
     pass
 
 
+def track_name(k):
+    """the names tracks are scheduled under: the empty string (a name like any other: only None means unnamed), a string
+    built at run time (equal to, but not the same object as, the one used at the previous call) and a plain literal"""
+    if k == 0:
+        return ""
+    if k == 1:
+        return "".join(["n", str(k)])
+    return "n%d" % k
+
+
 class RecDevice(OutputDevice):
     def __init__(self):
         super().__init__()
@@ -263,7 +273,7 @@ class Runner:
                 if dl is not None:
                     kw["delay"] = self.beats(dl)
                 tr = tl.schedule(self.new_pattern(sid), count=self.typed_count(count), remove_when_done=rwd,
-                                 name=(None if name is None else "n%d" % name), replace=replace, **kw)
+                                 name=(None if name is None else track_name(name)), replace=replace, **kw)
                 if id(tr) not in self.ids:
                     tid = len(self.tracks)
                     self.tracks[tid] = tr
